@@ -79,6 +79,10 @@ fn set_rcvbuf(fd: i32, bytes: i32) {
     }
 }
 
+pub fn set_rcvbuf_pub(s: &UdpSocket, bytes: i32) {
+    set_rcvbuf(s.as_raw_fd(), bytes);
+}
+
 pub fn get_rcvbuf(fd: i32) -> i32 {
     unsafe {
         let mut v: libc::c_int = 0;
